@@ -21,8 +21,8 @@ Theorem C17_classify_declared : forall p t d df, wf_ann t = true -> leaf_ok p t 
     forall c, about rt c = about t c.
 Proof. exact classify_declared. Qed.
 
-(* for every well-formed program (any declaration order Python admits, forward references anywhere, single and
-   multiple inheritance of any depth) and every list of distinct dataclasses of it: construction succeeds, the
+(* for every well-formed program (any declaration order Python admits, forward references anywhere -- also to
+   classes the declaring module imports under `if TYPE_CHECKING:` only --, single and multiple inheritance of any depth) and every list of distinct dataclasses of it: construction succeeds, the
    nodes are the given classes in the given order, no edge occurs twice and an edge is present exactly when the
    Spec demands it (inheritance: direct base, both in the diagram; association: a public field declared by the
    class or an ancestor whose annotation, seen through Optional / container / Type[...] and forward references,
@@ -78,13 +78,15 @@ Theorem C17_regression_union_none_first : forall c d df,
   /\ is_builtin_type {| resolved_type := OptionalL (Cls c); has_default := d; has_default_factory := df |} = Ok false.
 Proof. exact union_none_first_regression. Qed.
 
-(* outside the fragment: a module that sees two classes under `if TYPE_CHECKING:` only; with one of them
-   missing from the diagram construction raises NameError although the Spec has edges; with both present it works *)
-Theorem C17_refuted_two_unresolved :
-  build two_unresolved_prog [2; 3] = Raise NameError
-  /\ (exists e, In e (g_edges (spec_graph two_unresolved_prog [2; 3])) /\ e_kind e = EAssoc)
-  /\ (exists g, build two_unresolved_prog [2; 3; 4] = Ok g).
-Proof. exact two_unresolved_refuted. Qed.
+(* regression (C17-c, repaired by 91db0c8): a module that sees two classes under `if TYPE_CHECKING:` only, one of
+   them missing from the diagram.  The retry as it was (diagram classes plus the first missing name) raised
+   NameError; the program is inside the fragment now (C17_edges applies) and construction gives the Spec's edges *)
+Theorem C17_regression_two_unresolved :
+  old_retry two_unresolved_prog [2; 3] 2 = Raise NameError
+  /\ wf_prog two_unresolved_prog = true /\ wf_classes two_unresolved_prog [2; 3] = true
+  /\ build two_unresolved_prog [2; 3]
+     = Ok (mk_graph [2; 3] [mk_edge EInh 2 3 1; mk_edge EAssoc 2 3 5; mk_edge EAssoc 3 3 5]).
+Proof. exact two_unresolved_regression. Qed.
 
 Example C17_nonvacuous :
   wf_ty (Optional (Cls 2)) = true /\ wf_ty (OptionalL (Cls 2)) = true /\ wf_ty (Cont KList (Enum 3)) = true /\ wf_ty (TypeOf (Cls 2)) = true /\
@@ -107,4 +109,4 @@ Print Assumptions C17_views_pure_all.
 Print Assumptions C17_refuted_subdiagram_before_fix.
 Print Assumptions C17_refuted_shared_memo.
 Print Assumptions C17_regression_union_none_first.
-Print Assumptions C17_refuted_two_unresolved.
+Print Assumptions C17_regression_two_unresolved.
